@@ -277,6 +277,12 @@ pub fn spec(pool: &Pool, s: &Snap, op: &Json) -> Spec {
             if pkind == "document" && ckind == "doctype" {
                 return Spec::Unspecified("inserting-a-doctype");
             }
+            if kind == "replace" {
+                if let Some((XmlNode::DocumentType(_), _)) = &refk {
+                    // with the document type its entity declarations go: values that refer to them change
+                    return Spec::Unspecified("replacing-the-doctype");
+                }
+            }
             if let Some((r, rk)) = &refk {
                 if pk.0 != rk.0 || matches!(r, XmlNode::Document(_)) {
                     fails.push("WrongDocumentErr");
